@@ -850,3 +850,13 @@ K("tri.fan_tail", ["C06", "C03"], TRI, "tri_fan.rs", "fan_tail_contract", "K-sli
   claim="Triangulation::remove_vertex, fan path: success <=> facet-issue detection, orientation normalisation, sign canonicalisation, GLOBAL geometric-orientation validation, incidence rebuild and vertex removal all succeed; any failure => Err (snapshot restored by the caller of the closure)",
   mutant=dict(file=TRI, old="            self.validate_geometric_cell_orientation().map_err(|e| {\n                TdsValidationError::InconsistentDataStructure {\n                    message: format!(\n                        \"Geometric orientation validation failed after fan retriangulation: {e}\",\n                    ),\n                }\n            })?;\n",
               new="", desc="geometric-orientation validation after fan retriangulation dropped"))
+
+K("dt.level4_report", ["C04", "C05"], DT, "dt.rs", "level4_report_contract", "K-callee",
+  [fn(DT, "validation_report", anchor=r"pub fn validation_report\(&self\) -> Result<\(\), TriangulationValidationReport>")], tier="thorough", timeout=5400,
+  assumed=["Triangulation::validation_report (stub): Ok or a report with one violation (mapping kind or other); DelaunayTriangulation::is_valid (stub): any verdict"],
+  bounded="lower-level report with at most one violation",
+  obligations=["mapping-stop", "level4-evaluated", "report-iff-all-levels", "delaunay-entry-iff-violation", "nothing-lost"],
+  claim="DelaunayTriangulation::validation_report: empty <=> Levels 1-3 report nothing and the Delaunay check passes; a DelaunayProperty entry appears exactly when is_valid fails; lower violations kept",
+  mutant=dict(file=DT, old="                if let Err(e) = self.is_valid() {\n                    return Err(TriangulationValidationReport {\n                        violations: vec![InvariantViolation {",
+              new="                if let Err(e) = self.is_valid() && false {\n                    return Err(TriangulationValidationReport {\n                        violations: vec![InvariantViolation {",
+              desc="a Delaunay violation is not reported when the lower levels are clean"))
